@@ -156,12 +156,12 @@ def half_life(run, F):
         all(dtree.holds(c, {'self.len()': 0}) for c in empty[0][0])
     run.ob('HL.bracket', fn, 'empty input returns 0', ok_e, fn.loc(),
            'rows %s' % [(sorted(cs), l) for cs, l, ef in empty])
-    if len(nonempty) != 1 or not re.fullmatch(r'v\d+', nonempty[0][1]):
+    if len(nonempty) != 1 or not re.fullmatch(r"v\d+'*", nonempty[0][1]):
         run.ob('HL.bracket', fn, 'bisection loop `while n - last_n > 1`', False, fn.loc(),
                'no single non-empty path returning a bracket variable')
         return
-    hi = nonempty[0][1]
-    effs = list(nonempty[0][2])
+    hi = dtree.unprime(nonempty[0][1])
+    effs = [dtree.unprime(e_) for e_ in nonempty[0][2]]
     whiles = [x for x in walk(fn.hir) if x.get('k') == 'While']
     bis = []
     for w in whiles:
@@ -181,7 +181,8 @@ def half_life(run, F):
         rows = []
         for cs, l, ef in t:
             asg = {}
-            for e in ef:
+            cs = frozenset(dtree.unprime(c) for c in cs)
+            for e in map(dtree.unprime, ef):
                 m = re.match(r'(\w+) (=|:=) (.*)$', e)
                 if m and m.group(1) != m.group(3):
                     asg.setdefault(m.group(1), []).append(m.group(3))
